@@ -38,7 +38,11 @@ St0(cfg) == [cfg |-> cfg, claim |-> Absent, lastClaim |-> Absent, nodes |-> <<>>
              \* what the running node-termination reconcile read: pods / volume attachments of the node at its last
              \* list call (only known when reads are logged; otherwise the store at the instant of the write is used,
              \* which is the same thing when no foreign step interleaves)
-             obsP |-> [valid |-> FALSE, set |-> {}], obsV |-> [valid |-> FALSE, set |-> {}]]
+             obsP |-> [valid |-> FALSE, set |-> {}], obsV |-> [valid |-> FALSE, set |-> {}],
+             obsP1 |-> [valid |-> FALSE, set |-> {}],  \* ... at its FIRST pod list (the drain's view)
+             beginUids |-> {},                       \* uids of the pods bound to the reconciled node when the reconcile began
+             qEver |-> <<>>]                         \* ghost: pod uid -> earliest deadline it was EVER enqueued under while it
+                                                     \* stayed un-handled (kept when the implementation drops and re-adds the entry)
 
 TraceInit == l = 1 /\ st = St0(Absent) /\ viol = <<>> /\ ntr = 0 /\ done = FALSE
 
@@ -55,8 +59,10 @@ NodePre == IF Ev.name \in DOMAIN st.nodes THEN st.nodes[Ev.name] ELSE Absent
 \* the deadline of the node: the NodeClaim's termination timestamp (last seen, the claim may be gone)
 NodeDeadline == IF st.lastClaim.exists THEN st.lastClaim.terminationAt ELSE -1
 TgpSet == st.lastClaim.exists /\ st.lastClaim.tgp >= 0
-\* deadline a pod is handled under: the earliest it was queued with, else the node's current one
-DlOf(p) == IF p.uid \in DOMAIN st.qU THEN st.qU[p.uid] ELSE NodeDeadline
+\* deadline a pod is handled under: the earliest it was ever queued with while un-handled, else the earliest of its
+\* current stay in the queue, else the node's current one
+DlOf(p) == IF p.uid \in DOMAIN st.qEver THEN st.qEver[p.uid]
+           ELSE IF p.uid \in DOMAIN st.qU THEN st.qU[p.uid] ELSE NodeDeadline
 \* for the ordering check at eviction time the other pods are given the benefit of the earliest deadline ever in force
 \* (the annotation may have been rewritten to a later time after the drain pass that released the second class)
 DlLenient(p) == DlMin(DlOf(p), st.minDl)
@@ -88,14 +94,17 @@ ClaimChecks(pre, post) ==
 
 \* the guard applies to a managed Node that has (exactly one) NodeClaim
 HasClaim(n) == st.claim.exists /\ n.providerID # "-" /\ st.claim.providerID = n.providerID
-\* check-then-act: a pod or volume that changes between the controller's list and its patch is not judged against it
+\* The drain answers for every pod that was bound before the finalizer-removing reconcile looked at the node's pods:
+\* its first pod list if reads are logged, else the pods that were there when it began and still are (a pod bound
+\* during that reconcile, after its list, is excused: check-then-act). Volumes are judged on its last lists, else the store.
 NodeChecks(pre, post) ==
     IF ~(Karpenter /\ FinalizerRemoved(pre, post) /\ HasClaim(pre)) THEN <<>> ELSE
-    LET pods == IF st.obsP.valid THEN st.obsP.set ELSE PodsOn(pre.name)
+    LET podsD == IF st.obsP1.valid THEN st.obsP1.set ELSE {p \in PodsOn(pre.name) : p.uid \in st.beginUids}
+        podsV == IF st.obsP.valid THEN st.obsP.set ELSE PodsOn(pre.name)
         vas == IF st.obsV.valid THEN st.obsV.set ELSE VasOn(pre.name)
-    IN Chk(G_C09_NodeFinalizer(pre, st.claim, pods, vas, st.cfg.podPV, st.notFound, Ev.t, SA),
+    IN Chk(G_C09_NodeFinalizer(pre, st.claim, podsD, podsV, vas, st.cfg.podPV, st.notFound, Ev.t, SA),
            "G_C09_NodeFinalizer",
-           NodeFinalizerSig(pre, st.claim, pods, vas, st.cfg.podPV, st.notFound, Ev.t, SA))
+           NodeFinalizerSig(pre, st.claim, podsD, podsV, vas, st.cfg.podPV, st.notFound, Ev.t, SA))
 
 \* ---------------------------------------------------------------- C10
 PodPre == IF Ev.name \in DOMAIN st.pods THEN st.pods[Ev.name] ELSE Absent
@@ -121,7 +130,9 @@ Kept(old, new, n) == n \in DOMAIN old /\ n \in DOMAIN new /\ old[n].uid = new[n]
 QueueChecks(old, new) ==
     LET names == DOMAIN new
         fresh == {n \in names : ~Kept(old, new, n)}
-        bad == {n \in names : Kept(old, new, n) /\ ~G_C10_EarliestDeadline(old[n].dl, new[n].dl)}
+        bad == {n \in names : \/ (Kept(old, new, n) /\ ~G_C10_EarliestDeadline(old[n].dl, new[n].dl))
+                               \* dropped and re-added while still un-handled: the earliest deadline still binds
+                               \/ (new[n].uid \in DOMAIN st.qEver /\ ~G_C10_EarliestDeadline(st.qEver[new[n].uid], new[n].dl))}
         \* pods newly handed to the queue by a drain pass: ordering of the two classes
         lateClass == {n \in fresh : /\ st.ctl = "node.termination" /\ n \in DOMAIN st.pods /\ st.pods[n].exists
                                     /\ st.pods[n].uid = new[n].uid
@@ -134,6 +145,19 @@ QU(old, new) ==
     LET uids == {new[n].uid : n \in DOMAIN new} IN
     [u \in uids |-> LET n == CHOOSE x \in DOMAIN new : new[x].uid = u IN
                     IF u \in DOMAIN st.qU /\ Kept(old, new, n) THEN DlMin(st.qU[u], new[n].dl) ELSE new[n].dl]
+\* ghost qEver: only pods that are still un-handled (running, no eviction / deletion initiated) are tracked; an entry
+\* survives the implementation dropping the pod from its queue and ends when the pod is handled (an eviction or delete
+\* call that succeeded or was answered 404 / 409), stops running, or the process restarts
+ActivePod(n) == n \in DOMAIN st.pods /\ st.pods[n].exists /\ ~st.pods[n].deleting /\ ~Terminal(st.pods[n])
+QEver(new) ==
+    LET act == {n \in DOMAIN new : ActivePod(n) /\ st.pods[n].uid = new[n].uid}
+        uids == DOMAIN st.qEver \cup {new[n].uid : n \in act}
+    IN [u \in uids |-> IF \E n \in act : new[n].uid = u
+                       THEN LET n == CHOOSE x \in act : new[x].uid = u IN
+                            (IF u \in DOMAIN st.qEver THEN DlMin(st.qEver[u], new[n].dl) ELSE new[n].dl)
+                       ELSE st.qEver[u]]
+Drop(f, u) == [x \in DOMAIN f \ {u} |-> f[x]]
+Unhandled(post) == post.exists /\ ~post.deleting /\ ~Terminal(post)
 
 \* ---------------------------------------------------------------- events
 TApi ==
@@ -146,6 +170,10 @@ TApi ==
                               !.minDl = IF claim2.exists THEN DlMin(@, claim2.terminationAt) ELSE @,
                               !.nodes = IF IsNode /\ ok THEN Upd(@, Ev.name, post) ELSE @,
                               !.pods = IF Ev.kind = "Pod" /\ ok THEN Upd(@, Ev.name, post) ELSE @,
+                              !.qEver = IF /\ Ev.kind = "Pod" /\ PodPre.exists
+                                           /\ \/ (ok /\ ~Unhandled(post))
+                                              \/ (Karpenter /\ Ev.verb \in {"evict", "delete"} /\ Ev.err \in {"-", "NotFound", "Conflict"})
+                                        THEN Drop(@, PodPre.uid) ELSE @,
                               !.vas = IF Ev.kind = "VolumeAttachment" /\ ok THEN Upd(@, Ev.name, post) ELSE @]
           /\ viol' = viol
                \o (IF IsClaim /\ ok THEN ClaimChecks(st.claim, post) ELSE <<>>)
@@ -160,6 +188,7 @@ TEnv ==
                         !.minDl = IF claim2.exists THEN DlMin(@, claim2.terminationAt) ELSE @,
                         !.nodes = IF IsNode THEN Upd(@, Ev.name, Ev.post) ELSE @,
                         !.pods = IF Ev.kind = "Pod" THEN Upd(@, Ev.name, Ev.post) ELSE @,
+                        !.qEver = IF Ev.kind = "Pod" /\ PodPre.exists /\ ~Unhandled(Ev.post) THEN Drop(@, PodPre.uid) ELSE @,
                         !.vas = IF Ev.kind = "VolumeAttachment" THEN Upd(@, Ev.name, Ev.post) ELSE @]
     /\ UNCHANGED viol
 
@@ -175,12 +204,14 @@ TProv ==
 NoObs == [valid |-> FALSE, set |-> {}]
 TBegin == /\ Ev.e = "Begin" /\ UNCHANGED viol
           /\ st' = IF st.depth = 0
-                   THEN [st EXCEPT !.ctl = Ev.controller, !.obj = Ev.object, !.view = Ev.view, !.obsP = NoObs, !.obsV = NoObs, !.depth = 1]
+                   THEN [st EXCEPT !.ctl = Ev.controller, !.obj = Ev.object, !.view = Ev.view, !.obsP = NoObs, !.obsV = NoObs,
+                                   !.obsP1 = NoObs, !.beginUids = {p.uid : p \in PodsOn(Ev.object)}, !.depth = 1]
                    ELSE [st EXCEPT !.view = Ev.view, !.depth = @ + 1]
 \* a logged read of the node termination controller: remember what it saw
 TRead == /\ Ev.e = "Read" /\ UNCHANGED viol
          /\ LET mine == Ev.actor = "node.termination" /\ Ev.verb = "list" /\ Ev.err = "-" IN
             st' = [st EXCEPT !.obsP = IF mine /\ Ev.kind = "Pod" THEN [valid |-> TRUE, set |-> PodsOn(st.obj)] ELSE @,
+                             !.obsP1 = IF mine /\ Ev.kind = "Pod" /\ ~@.valid THEN [valid |-> TRUE, set |-> PodsOn(st.obj)] ELSE @,
                              !.obsV = IF mine /\ Ev.kind = "VolumeAttachment" THEN [valid |-> TRUE, set |-> VasOn(st.obj)] ELSE @]
 TEnd == /\ Ev.e = "End" /\ st' = [st EXCEPT !.depth = IF @ > 0 THEN @ - 1 ELSE 0]
         /\ viol' = viol \o Chk(~Ev.panic, IF Ev.controller = "eviction-queue" THEN "Inv_C10_NoPanic" ELSE "Inv_C09_NoPanic", Ev.controller)
@@ -189,11 +220,12 @@ TMem ==
     /\ LET new == QFun(Ev.queue) IN
        /\ viol' = viol \o QueueChecks(st.queue, new)
        /\ st' = IF st.depth = 0
-                THEN [st EXCEPT !.queue = new, !.qU = QU(st.queue, new), !.ctl = "-", !.view = Absent, !.obsP = NoObs, !.obsV = NoObs]
-                ELSE [st EXCEPT !.queue = new, !.qU = QU(st.queue, new), !.view = Absent]
+                THEN [st EXCEPT !.queue = new, !.qU = QU(st.queue, new), !.qEver = QEver(new), !.ctl = "-", !.view = Absent,
+                                !.obsP = NoObs, !.obsV = NoObs, !.obsP1 = NoObs]
+                ELSE [st EXCEPT !.queue = new, !.qU = QU(st.queue, new), !.qEver = QEver(new), !.view = Absent]
 \* a restart loses the in-memory eviction queue (and the lifecycle launch cache)
 TRestart == /\ Ev.e = "Restart"
-            /\ st' = [st EXCEPT !.queue = <<>>, !.qU = <<>>,
+            /\ st' = [st EXCEPT !.queue = <<>>, !.qU = <<>>, !.qEver = <<>>,
                                 !.lostPids = @ \cup {p \in st.created : ~(st.claim.exists /\ st.claim.providerID = p)}]
             /\ UNCHANGED viol
 \* Settled: outcome of the bounded-progress tail (evidence only: the statements of C09 / C10 are safety statements)
